@@ -84,6 +84,9 @@ type Exec struct {
 	noSummary     bool
 	summaryHits   int
 	assertQueries int
+	shared        *sharedState
+	onceDepth     int
+	lastRaces     []string
 }
 
 type Violation struct {
@@ -593,7 +596,7 @@ func (ex *Exec) witness(extra ...*Term) ([]ReplayInput, map[string]uint64, Verdi
 }
 
 func (ex *Exec) inputsFromModel(m map[string]uint64) []ReplayInput {
-	var out []ReplayInput
+	out := []ReplayInput{}
 	for _, in := range ex.inputs {
 		ri := ReplayInput{Kind: in.Kind}
 		for _, t := range in.Terms {
@@ -662,6 +665,9 @@ func (ex *Exec) resetPath(item WorkItem) {
 	ex.par = nil
 	ex.tokSrc = nil
 	ex.noSummary = false
+	ex.shared = nil
+	ex.onceDepth = 0
+	ex.lastRaces = nil
 }
 
 // runPath executes the harness once along the given decision prefix.
